@@ -445,7 +445,8 @@ class PackageMachine:
                 self._save(st, "xml")
             elif name == "reopen":
                 if st.last_kind == "bytesio":
-                    st.last_target.seek(0)
+                    # (the buffer itself is left as the save left it: rewinding it without truncating and
+                    # saving into it again is the caller's error, as with zipfile.ZipFile(buf, "w"))
                     st.doc = Document(io.BytesIO(st.last_target.getvalue()))
                     st.model = Model(read_zip(io.BytesIO(st.last_target.getvalue())))
                     st.opened_as = "bytesio"
